@@ -248,9 +248,9 @@ func propC09(c *Ctx) {
 // relies on Match).
 func maskedMatchRule(c *Ctx, id string) {
 	d5 := c.Rule(id, "K1 loop exits", "Contains/Match true only after all bytes matched", 6)
-	for _, spec := range []struct{ name, loopAtom, byteAtom, lenAtom string }{
-		{"(*tcpip.Subnet).Contains", "(phi{(1 + loop) | 0} < builtin:len($1))", "($0.address[phi{(1 + loop) | 0}] == ($0.mask[phi{(1 + loop) | 0}] & $1[phi{(1 + loop) | 0}]))", "(builtin:len($0.address) == builtin:len($1))"},
-		{"(*tcpip.Route).Match", "(phi{(1 + loop) | 0} < builtin:len($0.Destination))", "($0.Destination[phi{(1 + loop) | 0}] == ($0.Mask[phi{(1 + loop) | 0}] & $1[phi{(1 + loop) | 0}]))", "(builtin:len($0.Destination) == builtin:len($1))"},
+	for _, spec := range []struct{ name, loopAtom, loopAlt, byteAtom, lenAtom string }{
+		{"(*tcpip.Subnet).Contains", "(phi{(1 + loop) | 0} < builtin:len($1))", "(phi{(1 + loop) | 0} < builtin:len($0.address))", "($0.address[phi{(1 + loop) | 0}] == ($0.mask[phi{(1 + loop) | 0}] & $1[phi{(1 + loop) | 0}]))", "(builtin:len($0.address) == builtin:len($1))"},
+		{"(*tcpip.Route).Match", "(phi{(1 + loop) | 0} < builtin:len($0.Destination))", "(phi{(1 + loop) | 0} < builtin:len($1))", "($0.Destination[phi{(1 + loop) | 0}] == ($0.Mask[phi{(1 + loop) | 0}] & $1[phi{(1 + loop) | 0}]))", "(builtin:len($0.Destination) == builtin:len($1))"},
 	} {
 		fn := c.Fn(d5, spec.name)
 		if fn == nil {
@@ -259,6 +259,10 @@ func maskedMatchRule(c *Ctx, id string) {
 		atoms := map[string]bool{}
 		for _, e := range CondEdges(fn) {
 			atoms[e.Atom] = true
+		}
+		// the two lengths are equal once lenAtom held, so either bounds the loop
+		if !atoms[spec.loopAtom] && atoms[spec.loopAlt] {
+			spec.loopAtom = spec.loopAlt
 		}
 		for _, a := range []string{spec.loopAtom, spec.byteAtom, spec.lenAtom} {
 			c.Check(atoms[a], d5, spec.name+"/atom:"+a, c.P.Pos(fn.Pos()), "tests "+a, "the function no longer tests "+a)
